@@ -224,7 +224,13 @@ func runDhcpWire(t fataler, e *dhcpWireEnv, c dhcpWireCase) {
 	if c.request {
 		mt = 3
 	}
-	frame := dhcpFrame(c.mac, tags, c.outerAD, bootpRequest(mt, 0xa1b2c3d4, c.mac, o82))
+	payload := bootpRequest(mt, 0xa1b2c3d4, c.mac, o82)
+	if c.request {
+		// a RENEWING client: ciaddr carries the address it holds (the fast path leaves every other REQUEST to
+		// userspace, which would make "entry not found" and "not a renewal" indistinguishable here)
+		copy(payload[12:16], c.lease[:])
+	}
+	frame := dhcpFrame(c.mac, tags, c.outerAD, payload)
 	res, err := e.c.Run("dhcp_fastpath_prog", frame, bpfnative.DefaultOpts())
 	if err != nil {
 		t.Fatalf("INCONCLUSIVE: RUN: %v", err)
